@@ -2,8 +2,11 @@
    Statements only (copied verbatim from Proofs/CellProofs.v and Proofs/AdpProofs.v by harness/mkprops.py);
    every k_* function is the expression DAG recorded by the trace translator from /repo's current
    source (coq/Gen/K_cell.v, K_adp.v), so these theorems are re-checked against the code on every run.
-   Reference notions (metric tensor, valid cell, quadratic form): Spec/CellSpec.v. *)
-From SX Require Import Base.RTac Gen.K_cell Gen.K_adp Spec.CellSpec Proofs.CellProofs Proofs.AdpProofs.
+   Reference notions (metric tensor, valid cell, quadratic form): Spec/CellSpec.v.
+   is_npd(): the traced kernel k_npd is, by conversion, the decision tree of Model/Npd.v on the traced Cartesian tensor
+   (C12_k_npd_is_model, for every interpretation of the operations); Sylvester's criterion (C12_sylvester3) and the
+   congruence U ~ U(cart) then give: reported non-positive-definite exactly when U is not positive definite. *)
+From SX Require Import Base.RTac Gen.K_cell Gen.K_adp Spec.CellSpec Proofs.CellProofs Proofs.AdpProofs Model.Npd Proofs.NpdKernel Proofs.NpdProofs.
 Import ListNotations.
 Open Scope R_scope.
 
@@ -187,6 +190,43 @@ Theorem C12_pd_congruence u11 u22 u33 u23 u13 u12 a b c al be ga : valid_cell a 
           (k_ucart_0_2 ROps u11 u22 u33 u23 u13 u12 a b c al be ga) (k_ucart_0_1 ROps u11 u22 u33 u23 u13 u12 a b c al be ga).
 Proof. exact (pd_congruence u11 u22 u33 u23 u13 u12 a b c al be ga). Qed.
 Print Assumptions C12_pd_congruence.
+
+Theorem C12_sylvester3 u11 u22 u33 u23 u13 u12 :
+  pos_def u11 u22 u33 u23 u13 u12 <->
+  (0 < u11 /\ 0 < minor2 u11 u22 u33 u23 u13 u12 /\ 0 < minor3 u11 u22 u33 u23 u13 u12).
+Proof. exact (sylvester3 u11 u22 u33 u23 u13 u12). Qed.
+Print Assumptions C12_sylvester3.
+
+Theorem C12_k_npd_is_model (T : Type) (O : Ops T) u11 u22 u33 u23 u13 u12 a b c al be ga :
+  k_npd O u11 u22 u33 u23 u13 u12 a b c al be ga =
+  npd_model O u11 u22 u33 u23 u13 u12
+    (k_ucart_0_0 O u11 u22 u33 u23 u13 u12 a b c al be ga) (k_ucart_0_1 O u11 u22 u33 u23 u13 u12 a b c al be ga) (k_ucart_0_2 O u11 u22 u33 u23 u13 u12 a b c al be ga)
+    (k_ucart_1_0 O u11 u22 u33 u23 u13 u12 a b c al be ga) (k_ucart_1_1 O u11 u22 u33 u23 u13 u12 a b c al be ga) (k_ucart_1_2 O u11 u22 u33 u23 u13 u12 a b c al be ga)
+    (k_ucart_2_0 O u11 u22 u33 u23 u13 u12 a b c al be ga) (k_ucart_2_1 O u11 u22 u33 u23 u13 u12 a b c al be ga) (k_ucart_2_2 O u11 u22 u33 u23 u13 u12 a b c al be ga).
+Proof. exact (k_npd_is_model T O u11 u22 u33 u23 u13 u12 a b c al be ga). Qed.
+Print Assumptions C12_k_npd_is_model.
+
+Theorem C12_npd_aniso_correct u11 u22 u33 u23 u13 u12 a b c al be ga : valid_cell a b c al be ga ->
+  (u22 <> 0 \/ u33 <> 0 \/ u23 <> 0 \/ u13 <> 0 \/ u12 <> 0) ->
+  (k_npd ROps u11 u22 u33 u23 u13 u12 a b c al be ga = 0 <-> pos_def u11 u22 u33 u23 u13 u12) /\
+  (k_npd ROps u11 u22 u33 u23 u13 u12 a b c al be ga = 1 <-> ~ pos_def u11 u22 u33 u23 u13 u12).
+Proof. exact (npd_aniso_correct u11 u22 u33 u23 u13 u12 a b c al be ga). Qed.
+Print Assumptions C12_npd_aniso_correct.
+
+Theorem C12_npd_iso_correct u11 a b c al be ga :
+  (0 < u11 -> k_npd ROps u11 0 0 0 0 0 a b c al be ga = 0) /\
+  (-1 / 2 < u11 <= 0 -> k_npd ROps u11 0 0 0 0 0 a b c al be ga = 1) /\
+  (u11 <= -1 / 2 -> k_npd ROps u11 0 0 0 0 0 a b c al be ga = 0).
+Proof. exact (npd_iso_correct u11 a b c al be ga). Qed.
+Print Assumptions C12_npd_iso_correct.
+
+Theorem C12_npd_example_pd : pos_def 1 1 1 0 0 0.
+Proof. exact (npd_example_pd ). Qed.
+Print Assumptions C12_npd_example_pd.
+
+Theorem C12_npd_example_npd : ~ pos_def 1 1 1 0 0 2.
+Proof. exact (npd_example_npd ). Qed.
+Print Assumptions C12_npd_example_npd.
 
 Theorem C12_valid_cell_ortho : valid_cell 10 11 12 90 90 90.
 Proof. exact (valid_cell_ortho ). Qed.
